@@ -13,7 +13,7 @@ Require Import Zrs.gen.Generated Zrs.model.Headers Zrs.model.BlockDec Zrs.model.
 Require Import Zrs.proofs.C03_HufTable Zrs.proofs.C13_Canonical Zrs.proofs.C13_CanonCode Zrs.proofs.C13_LitAll Zrs.proofs.C13_Direct.
 Require Import Zrs.model.SeqEnc Zrs.model.FseEnc Zrs.model.WeightEnc Zrs.proofs.C12_SeqStream Zrs.proofs.C12_Desc Zrs.proofs.C13_WeightStream Zrs.proofs.C13_WeightDesc Zrs.proofs.C12_AvoidBits Zrs.proofs.C13_WeightTable Zrs.proofs.C13_WeightFinal.
 Require Import Zrs.model.FseNorm Zrs.proofs.C13_WeightModel.
-Require Import Zrs.proofs.C13_EncCanon Zrs.proofs.C13_Agree Zrs.proofs.C13_Accepted.
+Require Import Zrs.proofs.C13_EncCanon Zrs.proofs.C13_Agree Zrs.proofs.C13_Accepted Zrs.proofs.C13_EncWeights.
 Open Scope Z_scope.
 
 Theorem C13_shape_valid : forall n, 2 <= n <= 256 ->
@@ -239,6 +239,21 @@ Theorem C13_weight_description_as_the_compressor_builds_it : forall t data al pr
     (header < 128 -> read_weights t (header :: d ++ stream ++ rest) = ROk (data, D, 1 + header)).
 Proof. exact model_weight_description_roundtrip. Qed.
 
+(** the weights the table writer derives back from the code lengths are the weights the code was built from (complete
+    list whose smallest weight is 1); symbols of weight 0 get no code; the compressor's shape always contains weight 1 *)
+Theorem C13_written_weights_are_the_weights : forall W codes, let M := Z.log2 (kraft W) in
+  Forall (fun w => 0 <= w <= M) W -> In 1 W -> enc_build_from_weights W = ROk codes -> enc_weights codes = W.
+Proof. exact enc_weights_are_the_weights. Qed.
+Theorem C13_unused_symbols_get_no_code : forall W nmax codes, Forall (fun w => 0 <= w <= Z.of_nat nmax) W ->
+  enc_build_from_weights W = ROk codes ->
+  forall s, 0 <= s < Z.of_nat (length W) -> nth (Z.to_nat s) W (-1) = 0 -> nth (Z.to_nat s) codes (0, 0) = (0, 0).
+Proof. exact enc_codes_unused. Qed.
+Theorem C13_shape_contains_weight_one : forall n sh, 2 <= n <= 256 -> shape n = ROk sh -> In 1 sh.
+Proof. exact shape_has_one. Qed.
+
+Print Assumptions C13_written_weights_are_the_weights.
+Print Assumptions C13_unused_symbols_get_no_code.
+Print Assumptions C13_shape_contains_weight_one.
 Print Assumptions C13_weight_description_as_the_compressor_builds_it.
 Print Assumptions C13_fse_weight_description_for_every_half_bounded_distribution.
 Print Assumptions C13_fse_compressed_weight_description_roundtrip_table.
